@@ -172,7 +172,7 @@ def gen(rng):
     sc = {"frames": spec, "api": api, "state": "rand:" + cls, "sizes": [rng.choice((1, 2, 3, 100))], "seed": rng.randrange(1 << 30)}
     if api != "recv" and rng.random() < 0.3:
         sc["fire_cont"] = True
-    if cls in ("rsv", "opcode", "close1", "close_code", "ctl_long") and rng.random() < 0.4:
+    if cls in ("rsv", "opcode", "close1", "close_code", "ctl_long") and rng.random() < 0.4 and _refused_by_protocol(spec, api, bool(sc.get("fire_cont"))):
         sc["frames"] = spec + [dict(TRAILER)]
         sc["again"] = True
     elif len(spec) >= 2 and rng.random() < 0.25:
@@ -275,6 +275,21 @@ def _byte_strings(v):
         else:
             for x in v:
                 yield from _byte_strings(x)
+
+
+def _refused_by_protocol(spec, api, fire):
+    """does the reference model refuse the last frame of this history with a protocol exception (a randomly drawn close code,
+    for one, may be a legal one)?"""
+    from ..recvdrv import predict
+    try:
+        _, fl = frames_from(spec)
+    except InvalidScenario:
+        return False
+    if any(f.masked or not f.minimal() for f in fl):
+        return False
+    exp, _, complete = predict(fl, api, fire, False, "none")
+    return bool(complete and exp and exp[-1][0] == "exc" and exp[-1][1] == "WebSocketProtocolException" and len(exp) <= len(fl)
+                and sum(1 for e in exp if e[0] == "exc") == 1)
 
 
 def _run_again(sc, res, stream, frames, api, fire, cfg):
